@@ -12,7 +12,7 @@ RULE = ('(a) every op / nn op / loss once or more with operands that are NumPy v
         'reused by several ops; (b) DAG programs with two backward calls through the same root and a later graph re-using it; '
         'after every forward and every backward the bytes (`tobytes()` of the arrays and of their bases) of every operand, target, '
         'unrelated tensor, unrelated gradient and of the caller\'s gradient tensors are compared with the snapshot taken before; '
-        'every op is repeated and must be bit-identical; the values of all tensors are also compared with the model (in which data '
+        'every op is repeated and must be bit-identical; clone() and detach() of every tensor created (leaves with and without requires_grad, views, op results) must be a different object over storage that shares no memory with the source, and writing into it must leave the source alone; the values of all tensors are also compared with the model (in which data '
         'are immutable). Non-trivial: a program with an aliased operand or two backward calls.')
 EXHAUSTIVE = {'quick': False, 'thorough': False}
 ASSUMPTIONS = ['the documented in-place writers (optimizer step, initialisers, batch-norm running statistics, zeroing) are exercised by C08 / C15 / C13 / C04']
@@ -44,6 +44,30 @@ class Exec(tprog.Impl):
             d[('running-statistic', k)] = a.data.tobytes()
         return d
 
+    def independence(self, k):
+        """clone() and detach() of tensor k: a different object over storage that shares no memory with the source (nor with
+        its base); writing into the copy leaves the source's bytes alone; detach() does not require grad"""
+        x = self.ts[k]
+        if x is None: return
+        before = x.data.tobytes()
+        for how in ('clone', 'detach'):
+            try:
+                with common.quiet():
+                    r = getattr(x, how)()
+            except Exception as e:
+                self.problems.append(f'{how}() of tensor {k} raised {type(e).__name__}'); continue
+            if r is x or np.shares_memory(r.data, x.data):
+                self.problems.append(f'{how}() of tensor {k} (requires_grad={x.requires_grad}) shares storage with its source')
+                continue
+            if r.data.tobytes() != before or r.data.dtype != x.data.dtype or r.data.shape != x.data.shape:
+                self.problems.append(f'{how}() of tensor {k} changed the values / dtype / shape')
+            if how == 'detach' and r.requires_grad:
+                self.problems.append(f'detach() of tensor {k} requires grad')
+            if r.data.size and r.data.flags.writeable:
+                r.data[...] = 7
+                if x.data.tobytes() != before:
+                    self.problems.append(f'writing into {how}() of tensor {k} changed the source')
+
     def reach(self, r):
         seen, st = set(), [r]
         while st:
@@ -60,6 +84,7 @@ class Exec(tprog.Impl):
             k = len(self.ts) - 1
             if k in self.alias:                     # make this leaf a view of an earlier leaf's memory
                 self.ts[k].data = self.ts[self.alias[k]].data.reshape(self.ts[k].data.shape).view()
+            self.independence(k)
             return out
         if t[1] in ('op', 'loss', 'sop'):
             before = self.snap()
@@ -80,6 +105,7 @@ class Exec(tprog.Impl):
             if vals1 != vals2:
                 self.problems.append(f'{line[:80]} is not repeatable bit for bit')
             del self.ts[n1:]
+            for k in range(n0, n1): self.independence(k)
             return out
         if t[1] == 'bw':
             sg = self.sg
